@@ -9,7 +9,7 @@ from hypothesis import strategies as st
 from pbt import strategies as S
 from pbt.common import Stats, Sub, Violation
 from pbt.model import Model, norm_record, norm_records, prefixes_of, uri_prefixes_of
-from pbt.sut import Converter, curies, dump_records, mk_records
+from pbt.sut import BUILD_MODES, Converter, curies, dump_records, mk_converter_via, mk_records
 
 PROPERTY_ID = "C12"
 RULE = (
@@ -55,7 +55,7 @@ def cases(draw, tier="quick"):
             v = f"http://fresh{i}/"
         used.add(v)
         mapping.append([k, v])
-    return {"fn": fn, "records": recs, "mapping": mapping}
+    return {"fn": fn, "records": recs, "mapping": mapping, "build": draw(st.sampled_from(BUILD_MODES))}
 
 
 @st.composite
@@ -90,7 +90,7 @@ def check(case, stats: Stats) -> None:
     mapping = {k: v for k, v in case["mapping"]}
     injective = len(set(mapping.values())) == len(mapping)
     model = Model(recs)
-    conv = Converter(mk_records(recs))
+    conv = mk_converter_via({"delimiter": ":", "records": recs}, case.get("build", "at-once"))
     transitive = bool(set(mapping) & set(mapping.values()))
     TE = curies.reconciliation.TransitiveError
     try:
